@@ -31,7 +31,9 @@ class LifeGen(storegen.HistGen):
             else:
                 self.ops.append(["delbucket", b])
             return
-        if r < 0.25:
+        if r < 0.04:
+            self.ops.append(["reopen"])  # the client restarts: a new Datastore object on the same file
+        elif r < 0.25:
             self.op_insert(b)
         elif r < 0.32:
             self.op_bulk(b)
@@ -122,18 +124,58 @@ class C05(Prop):
             g.ops.append(["buckets"])
             for be in storelib.BACKENDS:
                 out.append(("recreate-history", {"backend": be, "ops": g.ops}))
+        # a restart right after the buckets exist, then every kind of bucket and event operation on the existing buckets
+        for i in range(ctx.pick(30, 400)):
+            g = LifeGen(rng)
+            for b in g.buckets[:2]:
+                g.ops.append(["create", b, storegen.mk_meta(rng, b)])
+                g.alive.add(b)
+            if rng.random() < 0.5:
+                g.op_insert(g.buckets[0])
+            g.ops.append(["reopen"])
+            for _ in range(rng.randint(1, 8)):
+                g.step()
+            g.ops.append(["buckets"])
+            for be in storelib.BACKENDS:
+                out.append(("reopen-history", {"backend": be, "ops": g.ops}))
+        # event writes with nothing read in between, then a bucket operation that must be refused (missing bucket, existing
+        # id, malformed creation) - "raises and changes nothing" includes the writes that are still buffered; only the
+        # final contents are observed
+        for i in range(ctx.pick(60, 800)):
+            g = LifeGen(rng)
+            for b in g.buckets[:2]:
+                g.ops.append(["create", b, storegen.mk_meta(rng, b)])
+                g.alive.add(b)
+            for _ in range(rng.randint(1, 3)):
+                for _ in range(rng.randint(1, 6)):
+                    b = rng.choice(g.buckets[:2])
+                    k = rng.random()
+                    if k < 0.6:
+                        g.op_insert(b)
+                    elif k < 0.75:
+                        g.op_replace(b)
+                    elif k < 0.9:
+                        g.op_delete(b)
+                    else:
+                        g.op_replacelast(b)
+                g.ops.append(rng.choice([["delbucket", g.buckets[2]], ["update", g.buckets[2], {"name": "x"}], ["metadata", g.buckets[2]],
+                                         ["create", g.buckets[0], storegen.mk_meta(rng, g.buckets[0])],
+                                         ["create_bad", g.buckets[2], "created"], ["create_bad", g.buckets[2], "null-field"],
+                                         ["update", g.buckets[1], {}]]))
+            for be in storelib.BACKENDS:
+                out.append(("quiet-refused", {"backend": be, "ops": g.ops, "quiet": True}))
         return out
 
     def impl(self, case):
-        r = storelib.Runner(case["backend"]).run(case["ops"])
+        r = storelib.Runner(case["backend"], with_dumps="last" if case.get("quiet") else True).run(case["ops"])
         r["outs"] = [storelib.norm_err(case["backend"], o) for o in r["outs"]]
         return r
 
     def model_lines(self, case, impl_out):
-        return storelib.model_lines(case["backend"], impl_out["resolved"])[0]
+        return storelib.model_lines(case["backend"], impl_out["resolved"], "last" if case.get("quiet") else True)[0]
 
     def model_out(self, case, answers, impl_out):
-        _, idx = storelib.model_lines(case["backend"], impl_out["resolved"])
+        _, idx = storelib.model_lines(case["backend"], impl_out["resolved"], "last" if case.get("quiet") else True)
         return storelib.model_out(case["backend"], impl_out["resolved"], answers, idx)
 
     def same(self, case, io, mo):
